@@ -29,7 +29,8 @@ const c03HeaderLimit = 800 * time.Millisecond
 
 // tlsboth: TLS listener and https upstream - neither end of the tunnel is a plain TCP connection, so the copy
 // goes through the buffered path and not through splice / ReadFrom
-var c03Routes = []string{"direct", "http", "https", "socks5", "connectfunc", "upgrade", "tlsboth"}
+// httpcl / httpte: the upstream proxy's 200 carries Content-Length: 5 / Transfer-Encoding: chunked
+var c03Routes = []string{"direct", "http", "https", "socks5", "connectfunc", "upgrade", "tlsboth", "httpcl", "httpte"}
 
 type nameTable struct {
 	mu sync.Mutex
@@ -67,7 +68,9 @@ func relay(a, b net.Conn) {
 }
 
 // forwarding HTTP(S) proxy peer: CONNECT -> dial target -> 200 (+ early target bytes in the same write) -> relay
-func startRelayHTTPProxy(names *nameTable, tlsCfg *tls.Config) net.Listener {
+// startRelayHTTPProxy: a forwarding HTTP proxy; replyFields are extra field lines of its 200 reply to CONNECT (a client
+// must ignore Content-Length / Transfer-Encoding there, RFC 9110 9.3.6: what follows the head is the tunnel).
+func startRelayHTTPProxy(names *nameTable, tlsCfg *tls.Config, replyFields ...string) net.Listener {
 	ln, err := net.Listen("tcp", "127.0.0.1:0")
 	if err != nil {
 		fatal("listen: %v", err)
@@ -107,7 +110,7 @@ func startRelayHTTPProxy(names *nameTable, tlsCfg *tls.Config) net.Listener {
 					return
 				}
 				// bytes the target sends right away travel in the same write as the reply
-				reply := []byte("HTTP/1.1 200 Connection established\r\n\r\n")
+				reply := []byte("HTTP/1.1 200 Connection established\r\n" + strings.Join(replyFields, "") + "\r\n")
 				t.SetReadDeadline(time.Now().Add(40 * time.Millisecond))
 				eb := make([]byte, 64<<10)
 				n, _ := t.Read(eb)
@@ -335,7 +338,9 @@ func newC03Env(seed int64) *c03Env {
 	hp := startRelayHTTPProxy(env.names, nil)
 	hps := startRelayHTTPProxy(env.names, &tls.Config{Certificates: []tls.Certificate{cert}})
 	sp := startRelaySOCKS5(env.names)
-	env.lns = []net.Listener{hp, hps, sp}
+	hpcl := startRelayHTTPProxy(env.names, nil, "Content-Length: 5\r\n")
+	hpte := startRelayHTTPProxy(env.names, nil, "Transfer-Encoding: chunked\r\n")
+	env.lns = []net.Listener{hp, hps, sp, hpcl, hpte}
 	for _, r := range c03Routes {
 		// a short read-header limit: a tunnel must be able to outlive it
 		fc := fwdCfg{Name: "fwd", Localhost: "allow", ReadHeaderTimeout: c03HeaderLimit}
@@ -344,6 +349,10 @@ func newC03Env(seed int64) *c03Env {
 			fc.Upstream = "http://" + addrA
 		case "https":
 			fc.Upstream = "https://" + addrB
+		case "httpcl":
+			fc.Upstream = "http://proxycl.test:3131"
+		case "httpte":
+			fc.Upstream = "http://proxyte.test:3132"
 		case "tlsboth":
 			fc.Upstream = "https://" + addrB
 			fc.TLS = true
@@ -372,6 +381,8 @@ func newC03Env(seed int64) *c03Env {
 		f.mapName(addrA, hp.Addr().String())
 		f.mapName(addrB, hps.Addr().String())
 		f.mapName(addrC, sp.Addr().String())
+		f.mapName("proxycl.test:3131", hpcl.Addr().String())
+		f.mapName("proxyte.test:3132", hpte.Addr().String())
 		f.nameFallback = env.names
 		env.fwds[r] = f
 	}
